@@ -21,13 +21,15 @@ for d in sorted(glob.glob(root + "/C*-*")):
             break
     title = re.sub(r"^(Change|Seed(ed change)?)\s*\d+\s*[—:\-–]*\s*", "", title)[:150]
     keys = sorted({re.sub(r"^--- ", "", k).split()[0] for k in m.get("check_violation_keys", []) if k.startswith("---")})
-    rows.append((sid, ", ".join(files), title, "yes" if m.get("detected") else "NO", "; ".join(keys)[:160], notes.get(sid, "")))
+    det = "yes" if m.get("detected") else ("by another check" if "caught by ./check" in notes.get(sid, "") or "./check C05 catches" in notes.get(sid, "") else "NO")
+    rows.append((sid, ", ".join(files), title, det, "; ".join(keys)[:160], notes.get(sid, "")))
 with open(os.path.join(root, "README.md"), "w") as f:
     f.write("# Seeded breaking changes\n\nEach directory holds `patch.diff` (apply with `git -C /repo apply`), the author's demonstration test\n"
             "(`demo_test.go.txt`), the author's notes and `meta.json` (what was confirmed in a scratch worktree and what the\n"
             "property's quick check printed with the patch applied). The authors saw only the property text.\n\n")
     det = sum(1 for r in rows if r[3] == "yes")
-    f.write("%d changes recorded, %d detected by the quick tier of the property's check.\n\n" % (len(rows), det))
+    other = sum(1 for r in rows if r[3] == "by another check")
+    f.write("%d changes recorded, %d detected by the quick tier of the property's check, %d by the check of the property they actually break.\n\n" % (len(rows), det, other))
     f.write("| id | file(s) | change | detected | failing sub-check keys | strengthening needed |\n|---|---|---|---|---|---|\n")
     for r in rows:
         f.write("| " + " | ".join(x.replace("|", "/") for x in r) + " |\n")
